@@ -694,6 +694,21 @@ def e1(ctx):
                   '%s: %s can leave the function with `ident` still in the guard set: the next '
                   'hash()/repr() of this treespec on this thread returns the recursion placeholder'
                   % (inst(f), ' and '.join(leaks) or 'no erase at all'), ins[0].loc)
+        # a cleanup that lives in a handler is reached only by the exceptions the handler names:
+        # it has to be a catch-all (Python exceptions travel as py::error_already_set, which is a
+        # std::exception but not a std::runtime_error)
+        narrow = []
+        for cs in f.body.find('CXXCatchStmt'):
+            if any(x is e for e in ers for x in cs.walk()):
+                decl = cs.kids[0] if cs.kids else None
+                if decl is not None:
+                    narrow.append((cs, decl.type or decl.name or '?'))
+        ctx.check(short(f) + '/cleanup-handler-catches-everything', not narrow,
+                  '%s: the handler that erases `ident` from the guard set is `catch (...)`' % inst(f),
+                  '%s: the guard set is cleaned in `catch (%s)`: an exception of another type (a Python '
+                  'exception is py::error_already_set) leaves `ident` in the set and every later hash() / repr() '
+                  'of this treespec on this thread returns the recursion placeholder'
+                  % (inst(f), narrow[0][1] if narrow else ''), narrow[0][0].loc if narrow else f.loc)
         # the payload call sits inside the try block (has an exceptional edge to the handler)
         shapes[name] = [n.kind for n in cfg.nodes]
     a, b = list(shapes.values())
